@@ -19,7 +19,9 @@ def run(ctx):
     ctx.rule = ("suite sem: online-generated start/release/cancel/yield scripts on one real asyncio.Semaphore(0..3) "
                 "with up to 10 tasks; suite runs: 1-3 real Workflow instances (two of one class) with "
                 "num_concurrent_runs in {1,2,3,4,None}, up to 14 overlapping runs, endings by result / step failure / "
-                "cancel_run / hard cancel / timeout, driver ops open-gate / tick / settle / advance; distinct key = "
+                "cancel_run / hard cancel / timeout, driver ops open-gate / tick / settle / advance; suite replacement: 8-16 "
+                "instances of limit 1..4 run and are dropped, a new instance with another limit is allocated at the "
+                "address (id) of a dropped one and given limit+1..2 overlapping runs; distinct key = "
                 "(instance configuration, sequence of model action kinds of the recorded schedule)")
     ctx.prove()
     ctx.trusted.append("asyncio.Semaphore / Task.cancel / event-loop FIFO scheduling of CPython 3.12: transcribed in "
@@ -78,6 +80,21 @@ def run(ctx):
     ctx.disagreements += len(badB)
     ctx.disagreements_checked = len(badA) + len(badB)
 
+    # ---- part C: a new instance at the address of a dropped one --------------------------------------
+    nC = ctx.n(60, 600)
+    reused = 0
+    for i in range(nC):
+        out, facts = RL.replacement_case(rng)
+        reused += 1 if facts["reused"] else 0
+        ctx.count(1, ("replacement", facts["spec"]["old_limit"], facts["spec"]["new_limit"], facts["spec"]["runs"], facts["reused"]))
+        if i < 2:
+            ctx.sample(_jsonable(dict(suite="runlimit.replacement", **facts)))
+        for k, msg, d in out:
+            findings.append((k, msg, d, dict(instances=[], ops=[], replacement=d)))
+    ctx.programs += nC
+    ctx.suite("runlimit.replacement", cases=nC, address_reused=reused)
+    cover.append(("runlimit.replacement", "address_reused", reused, 10))
+
     # ---- verdicts ---------------------------------------------------------------------------------
     seen = set()
     findings.sort(key=lambda f: len(f[3]["ops"]))
@@ -112,7 +129,7 @@ def replay(ctx, path):
     body = json.load(open(path))
     print(json.dumps({k: body[k] for k in body if k not in ("spec",)}, indent=1)[:3000])
     spec = body.get("spec")
-    if not spec:
+    if not spec or spec.get("replacement"):
         return run(ctx)
     spec["ops"] = [tuple(tuple(x) if isinstance(x, list) else x for x in op) for op in spec["ops"]]
     rng = random.Random(ctx.seed)
